@@ -152,7 +152,8 @@ theorem introspected_position_agrees {path : Str} {exported : List (Str × List 
     (o : ExpObj) (ho : o.ifaces = (cs.map (·.iface)).map ifaceOfIntro) (dest : Nat) :
     ∃ px, introspectedProxy dest path exported heap known replace = some px ∧
       px.dest = dest ∧ px.path = String.ofList path ∧ px.ifaces.length = (decl cs).length ∧
-      ∀ j d i, (decl cs)[j]? = some d → px.ifaces[j]? = some i → FreshOrSame heap known replace d →
+      ∀ (j : Nat) (d : Interface) (i : Iface), (decl cs)[j]? = some d → px.ifaces[j]? = some i →
+        FreshOrSame heap known replace d →
         i.AgreesIn o ∨ i.name ∈ stdNames := by
   obtain ⟨evs, st, h1, h2, hlen, hheap, hidx⟩ :=
     known_reused_unless_replaced hobj hdecl hnames heap known replace
